@@ -397,6 +397,8 @@ def gen_case(rng, max_order=6, max_vocab=60, size="small", force=None):
         V = max(3, (1 << k) + rng.choice([-1, 0, 1]) - 3)
     words = _wordlist(rng, V)
     unk = force.get("unk") or rng.choice(["<unk>", "<unk>", "<unk>", None, "<UNK>"])
+    if unk == "absent":
+        unk = None
     has_bos = rng.random() < 0.9
     has_eos = rng.random() < 0.9
     kind = force.get("kind") or rng.choice(["corpus", "corpus", "pruned", "pruned", "random"])
